@@ -269,7 +269,7 @@ func runTouch(s *Spec) {
 			}
 		}
 	})
-	s.Describe = fmt.Sprintf("touch[%s] %s", s.Class, s.Entry.Describe())
+	s.Describe = fmt.Sprintf("touch[%s] prefix=%d %s", s.Class, s.Prefix, s.Entry.Describe())
 	if s.Value != nil {
 		s.Describe += " value=" + s.Value.Describe()
 	}
@@ -491,6 +491,16 @@ func (g *gen) sequence(r *cv.Rand, e *Entry, mode string, par int, parFirst bool
 	other := genEntry(r, "error", r.Intn(3), 1, false, false)
 	other.Name = "Other"
 	seq := &Spec{Kind: "seq", Class: fmt.Sprintf("seq:%s:par=%d", mode, par), ABI: append([]*Entry{e, f, x, other}, extra...), Mode: mode, Par: par, First: parFirst}
+	P := -1
+	if len(e.Inputs) >= 1 {
+		// a function over the first n-1 parameters whose Inputs slice is a sub-slice of the event's own
+		tw := cloneEntry(e)
+		tw.Type, tw.Anonymous, tw.Name = "function", false, e.Name+"P"
+		tw.Inputs = tw.Inputs[:len(tw.Inputs)-1]
+		seq.ABI = append(seq.ABI, tw)
+		seq.PrefixTwin = true
+		P = len(seq.ABI) - 1
+	}
 	const E, F, X = 0, 1, 2
 	sig := func(objs ...int) []*Spec {
 		var l []*Spec
@@ -538,8 +548,12 @@ func (g *gen) sequence(r *cv.Rand, e *Entry, mode string, par int, parFirst bool
 		d2 := &Spec{Kind: "dec", Class: "seq:foreign", Obj: obj, Data: foreign}
 		return []*Spec{c, d1, d2}
 	}
-	revert := func() []*Spec {
-		all := append([]*Entry{{Type: "error", Name: "Error", Inputs: []Param{{T: &T{K: kString, Name: "reason"}}}}}, seq.ABI...)
+	revertOn := func(k int) []*Spec {
+		all := append([]*Entry{{Type: "error", Name: "Error", Inputs: []Param{{T: &T{K: kString, Name: "reason"}}}}}, seq.ABI[:k]...)
+		pre := k
+		if k == len(seq.ABI) {
+			pre = 0
+		}
 		firstWithSel := func(sel []byte) int {
 			for k, en := range all {
 				if en.Type == "error" && string(en.Selector()) == string(sel) {
@@ -551,19 +565,30 @@ func (g *gen) sequence(r *cv.Rand, e *Entry, mode string, par int, parFirst bool
 		var l []*Spec
 		for _, en := range []*Entry{x, all[0], other} {
 			v := genValue(r, en.tuple())
-			sp := &Spec{Kind: "err", Class: "seq:own-data", Data: append(en.Selector(), specEnc(en.tuple(), v)...)}
-			if !en.tuple().hasFixedPoint() {
-				sp.Expect, sp.ExpIdx, sp.ExpVals = "values", firstWithSel(en.Selector()), v.List
+			sp := &Spec{Kind: "err", Class: fmt.Sprintf("seq:own-data:prefix=%d", pre), Prefix: pre, Data: append(en.Selector(), specEnc(en.tuple(), v)...)}
+			if idx := firstWithSel(en.Selector()); idx < 0 {
+				sp.Expect = "refuse" // the definition lies beyond the end of this (shorter) ABI slice
+			} else if !en.tuple().hasFixedPoint() {
+				sp.Expect, sp.ExpIdx, sp.ExpVals = "values", idx, v.List
 			}
 			l = append(l, sp)
 		}
 		// the function twin's call data is not revert data of any error (unless a selector coincides)
 		v := genValue(r, f.tuple())
-		sp := &Spec{Kind: "err", Class: "seq:function-selector", Data: append(f.Selector(), specEnc(f.tuple(), v)...)}
+		sp := &Spec{Kind: "err", Class: "seq:function-selector", Prefix: pre, Data: append(f.Selector(), specEnc(f.tuple(), v)...)}
 		if firstWithSel(f.Selector()) < 0 {
 			sp.Expect = "refuse"
 		}
 		return append(l, sp)
+	}
+	// lookups on the shorter slices of the ABI's backing array first, on the whole ABI afterwards
+	revert := func() []*Spec {
+		var l []*Spec
+		l = append(l, &Spec{Kind: "touch", Class: "maps,validate-abi", Obj: E, Prefix: 2})
+		l = append(l, revertOn(2)...)
+		l = append(l, revertOn(3)[:2]...)
+		l = append(l, &Spec{Kind: "touch", Class: "maps", Obj: E})
+		return append(l, revertOn(len(seq.ABI))...)
 	}
 	touch := func(obj int) []*Spec {
 		ops := []string{"string", "tree", "sol", "maps", "marshal", "input", "selector"}
@@ -579,6 +604,9 @@ func (g *gen) sequence(r *cv.Rand, e *Entry, mode string, par int, parFirst bool
 	blocks := [][]*Spec{log1, call(F), revert(), touch(E), touch([]int{F, X}[r.Intn(2)])}
 	for k := range extra {
 		blocks = append(blocks, touch(4+k), sig(4+k))
+	}
+	if P >= 0 {
+		blocks = append(blocks, append(append(sig(P), touch(P)...), call(P)...))
 	}
 	if r.Bool() {
 		blocks = append(blocks, call(E))
@@ -612,6 +640,10 @@ func (g *gen) sequence(r *cv.Rand, e *Entry, mode string, par int, parFirst bool
 	}
 	steps = append(steps, sig(E, F, X)...)
 	steps = append(steps, call(X)[1:]...)
+	steps = append(steps, revertOn(len(seq.ABI))[:3]...)
+	if P >= 0 {
+		steps = append(steps, sig(P)...)
+	}
 	seq.Steps = steps
 	g.add(seq)
 }
@@ -656,7 +688,8 @@ func (g *gen) sequences(r *cv.Rand, nRandom int, thorough bool) {
 	// reported by Validate, rendered as "" by String)
 	for _, m := range modes {
 		g.sequence(r, s2, m, 0, false, &Entry{Type: "constructor", Inputs: []Param{{T: &T{K: kUint, M: 256, Name: "supply"}}}},
-			&Entry{Type: "error", Name: "Bad", Inputs: []Param{{T: &T{K: kInvalid, Bad: "wrong", Name: "z"}}}})
+			&Entry{Type: "error", Name: "Bad", Inputs: []Param{{T: &T{K: kInvalid, Bad: "wrong", Name: "z"}}}},
+			&Entry{Type: "error", Name: "Error", Inputs: []Param{{T: &T{K: kString, Name: "message"}}}})
 	}
 	// random events
 	for i := 0; i < nRandom; i++ {
